@@ -1,14 +1,17 @@
 package validator
 
 // Harness for C06 (DESIGN 5/C06).  TestVerifC06Replay reads behaviours of the contract
-// specs/Validator.tla ([init cfg] [present req | adv d | sync users]*), builds for every behaviour K
-// real Validator filters with seeded secrets / access keys / users, concretises every presented
+// specs/Validator.tla ([init cfg] [present req | adv d | sync users | reconf cfg mat users]*), builds for
+// every behaviour K real Validator filters with seeded secrets / access keys / users, concretises every presented
 // abstract request K times (independent HMAC JWT issuer; the repository's signer as the client
 // library, the mutation applied AFTER signing; htpasswd file / etcd entries written by the harness),
 // sends each request through the wire format and through httpprot.NewRequest + FetchPayload exactly
 // as the HTTP server's mux does, calls Validator.Handle and logs what it observed.  `adv` moves the
 // JWT clock (jwt.TimeFunc); `sync` delivers a snapshot of the credential table through the channel
-// the validator's etcd watcher reads (users removed, passwords changed, empty table).  No verdict
+// the validator's etcd watcher reads (users removed, passwords changed, empty table); `reconf` is a hot
+// update: a new filter instance is created from the new spec (other JWT secret / algorithm, other access
+// keys, other users, methods added or dropped - or the same spec) with kind.CreateInstance and
+// Inherit(running instance), the running one is closed, as pipeline.reload does.  No verdict
 // is taken here: the cases are compared with the contract's prediction by props/c06.py and
 // validated as a trace by TLC (specs/Validator_Trace.tla).
 
@@ -151,51 +154,45 @@ func (u c06User) pass(ver string) string {
 }
 
 type c06World struct {
-	cfg        vx.M
+	cfg0       vx.M // configuration of the first generation: the identity of the world (seeds its data)
+	cfg        vx.M // configuration of the running generation
+	mat        vx.M // credential material of its spec: {jsec: k0|k1, aks: {id0, id1: v1|v2|gone}}
+	gen        int  // number of hot updates so far
+	builds     int  // number of specs built so far
+	history    []string
 	hdrName    string
 	hdrVals    []string
-	alg        string
 	k0, k1     []byte
 	cookieName string
 	ids        [2]string
-	secrets    [2]string
+	secrets    [2][2]string // [access key][secret version v1, v2]
 	wrongSec   string
 	unknownID  string
-	excl       bool
 	uPlain     c06User
 	uColon     c06User
 	unknownU   string
 	dir        string
 	otherLine  string
 	users      map[string]string      // the abstract user table as last delivered
-	syncCh     chan map[string]string // ETCD mode: the channel the validator's watcher reads
-	v          *Validator
+	stores     map[string]map[string]string // ETCD mode: what the cluster store holds under each prefix
+	prefix     string                 // ETCD mode: the prefix of the running generation's spec
+	userFile   string                 // FILE mode: the user file of the running generation's spec
+	syncCh     chan map[string]string // ETCD mode: the channel the running generation's watcher reads
+	super      *supervisor.Supervisor
+	v          filters.Filter
 	now        int
 	buildErr   string
 }
 
 func c06NewWorld(cfg vx.M, rep int) *c06World {
 	r := vx.Rand(c06Hash("world", cfg, rep))
-	w := &c06World{cfg: cfg}
-	raw := map[string]interface{}{"kind": "Validator", "name": "c06"}
+	w := &c06World{cfg0: cfg}
 
 	// headers
 	w.hdrName = "X-Valid-" + strings.Title(strings.ToLower(c06Str(r, c06Letters[:26], 3, 6)))
 	w.hdrVals = []string{c06Str(r, c06Letters, 1, 8), "v " + c06Str(r, c06Letters, 1, 5)}
-	if h := vx.Str(cfg["hdr"]); h != "off" {
-		rule := map[string]interface{}{}
-		if h == "values" || h == "both" {
-			rule["values"] = w.hdrVals
-		}
-		if h == "regexp" || h == "both" {
-			rule["regexp"] = "^ok-[0-9]+$"
-		}
-		raw["headers"] = map[string]interface{}{w.hdrName: rule}
-	}
 
-	// jwt
-	j := c06M(cfg["jwt"])
-	w.alg = vx.Str(j["alg"])
+	// jwt: two secrets
 	w.k0 = make([]byte, 1+r.Intn(64))
 	r.Read(w.k0)
 	w.k1 = make([]byte, 1+r.Intn(64))
@@ -204,34 +201,25 @@ func c06NewWorld(cfg vx.M, rep int) *c06World {
 		w.k1 = append(w.k1, 1)
 	}
 	w.cookieName = "auth" + c06Str(r, c06Letters[:26], 0, 4)
-	if vx.Bool(j["on"]) {
-		js := map[string]interface{}{"algorithm": w.alg, "secret": hex.EncodeToString(w.k0)}
-		if vx.Bool(j["cookie"]) {
-			js["cookieName"] = w.cookieName
-		}
-		raw["jwt"] = js
-	}
 
-	// signature
-	s := c06M(cfg["sig"])
+	// signature: two access keys with two secrets each, a secret and an id that are never configured
 	w.ids = [2]string{"AK" + c06Str(r, c06Letters, 4, 12), "ak" + c06Str(r, c06Letters, 4, 12)}
-	w.secrets = [2]string{c06Str(r, c06PwRunes, 8, 32), c06Str(r, c06PwRunes, 8, 32)}
-	w.wrongSec = []string{w.secrets[0] + "x", w.secrets[0][:len(w.secrets[0])-1], strings.ToUpper(w.secrets[0]) + "_", c06Str(r, c06PwRunes, 8, 32)}[r.Intn(4)]
-	w.unknownID = "NK" + c06Str(r, c06Letters, 4, 12)
-	w.excl = vx.Bool(s["excl"])
-	if vx.Bool(s["on"]) {
-		ss := map[string]interface{}{
-			"accessKeys":     map[string]string{w.ids[0]: w.secrets[0], w.ids[1]: w.secrets[1]},
-			"excludeBody":    w.excl,
-			"ignoredHeaders": []string{c06IgnoredHdr},
-		}
-		if vx.Bool(s["ttl"]) {
-			ss["ttl"] = "10m"
-		}
-		raw["signature"] = ss
+	for i := range w.secrets {
+		w.secrets[i] = [2]string{c06Str(r, c06PwRunes, 8, 32), c06Str(r, c06PwRunes, 8, 32)}
 	}
+	for i := range w.secrets {
+		if w.secrets[i][1] == w.secrets[i][0] {
+			w.secrets[i][1] += "2"
+		}
+	}
+	s0 := w.secrets[0][0]
+	w.wrongSec = []string{s0 + "x", s0[:len(s0)-1], strings.ToUpper(s0) + "_", c06Str(r, c06PwRunes, 8, 32)}[r.Intn(4)]
+	for w.wrongSec == w.secrets[0][1] || w.wrongSec == w.secrets[1][0] || w.wrongSec == w.secrets[1][1] {
+		w.wrongSec += "w"
+	}
+	w.unknownID = "NK" + c06Str(r, c06Letters, 4, 12)
 
-	// basic auth
+	// basic auth: two users with two passwords each
 	w.uPlain = c06User{name: c06Str(r, c06NameRunes, 1, 10), pw: [2]string{c06Password(r), c06Password(r)}}
 	for {
 		w.uColon = c06User{name: c06Str(r, c06NameRunes, 1, 10), pw: [2]string{c06ColonPassword(r), c06ColonPassword(r)}}
@@ -255,54 +243,189 @@ func c06NewWorld(cfg vx.M, rep int) *c06World {
 			u.name = "u" + u.name
 		}
 	}
-	var super *supervisor.Supervisor
-	mode := vx.Str(cfg["basic"])
 	for _, u := range []*c06User{&w.uPlain, &w.uColon} {
 		for i := range u.pw {
 			u.line[i] = u.name + ":" + c06HashPassword(r, u.pw[i])
 		}
 	}
 	w.otherLine = "someoneelse:" + c06HashPassword(r, "pw"+c06Str(r, c06Letters, 3, 6))
-	lines := []string{w.uPlain.line[0], w.uColon.line[0], w.otherLine}
-	w.users = map[string]string{"uPlain": "v1", "uColon": "v1"}
+	w.users = map[string]string{}
+
+	w.build(cfg, vx.M{"jsec": "k0", "aks": map[string]interface{}{"id0": "v1", "id1": "v1"}},
+		vx.M{"uPlain": "v1", "uColon": "v1"}, r)
+	return w
+}
+
+// the htpasswd / etcd entries of a user table (plus somebody else's, unless `bare`)
+func (w *c06World) lines(table vx.M, bare bool) []string {
+	var lines []string
+	for _, u := range []struct {
+		key string
+		u   c06User
+	}{{"uPlain", w.uPlain}, {"uColon", w.uColon}} {
+		switch vx.Str(table[u.key]) {
+		case "v1":
+			lines = append(lines, u.u.line[0])
+		case "v2":
+			lines = append(lines, u.u.line[1])
+		}
+	}
+	if !bare {
+		lines = append(lines, w.otherLine)
+	}
+	return lines
+}
+
+// build creates a filter instance from the spec described by (cfg, mat, users).  The first one is
+// initialised with Init; every later one with Inherit(running instance), after which the running
+// instance is closed and replaced (pipeline.reload / Pipeline.Inherit).
+func (w *c06World) build(cfg, mat, users vx.M, r *rand.Rand) {
+	raw := map[string]interface{}{"kind": "Validator", "name": "c06"}
+	if h := vx.Str(cfg["hdr"]); h != "off" {
+		rule := map[string]interface{}{}
+		if h == "values" || h == "both" {
+			rule["values"] = w.hdrVals
+		}
+		if h == "regexp" || h == "both" {
+			rule["regexp"] = "^ok-[0-9]+$"
+		}
+		raw["headers"] = map[string]interface{}{w.hdrName: rule}
+	}
+	if j := c06M(cfg["jwt"]); vx.Bool(j["on"]) {
+		secret := w.k0
+		if vx.Str(mat["jsec"]) == "k1" {
+			secret = w.k1
+		}
+		js := map[string]interface{}{"algorithm": vx.Str(j["alg"]), "secret": hex.EncodeToString(secret)}
+		if vx.Bool(j["cookie"]) {
+			js["cookieName"] = w.cookieName
+		}
+		raw["jwt"] = js
+	}
+	if s := c06M(cfg["sig"]); vx.Bool(s["on"]) {
+		keys := map[string]string{}
+		for i, id := range []string{"id0", "id1"} {
+			switch vx.Str(c06M(mat["aks"])[id]) {
+			case "v1":
+				keys[w.ids[i]] = w.secrets[i][0]
+			case "v2":
+				keys[w.ids[i]] = w.secrets[i][1]
+			}
+		}
+		ss := map[string]interface{}{
+			"accessKeys":     keys,
+			"excludeBody":    vx.Bool(s["excl"]),
+			"ignoredHeaders": []string{c06IgnoredHdr},
+		}
+		if vx.Bool(s["ttl"]) {
+			ss["ttl"] = "10m"
+		}
+		raw["signature"] = ss
+	}
+	mode := vx.Str(cfg["basic"])
 	switch mode {
 	case "file", "nomode":
-		dir, err := os.MkdirTemp("", "verif-c06-")
-		if err != nil {
-			panic(err)
+		if w.dir == "" {
+			dir, err := os.MkdirTemp("", "verif-c06-")
+			if err != nil {
+				panic(err)
+			}
+			w.dir = dir
 		}
-		w.dir = dir
-		p := filepath.Join(dir, "htpasswd")
-		if err := os.WriteFile(p, []byte(strings.Join(lines, "\n")+"\n"), 0o600); err != nil {
-			panic(err)
+		// a spec with other users names another user file; the same users: the same file (the unchanged spec)
+		p := w.userFile
+		if p == "" || !w.sameUsers(users) {
+			w.builds++
+			p = filepath.Join(w.dir, fmt.Sprintf("htpasswd-%d", w.builds))
+			if err := os.WriteFile(p, []byte(strings.Join(w.lines(users, false), "\n")+"\n"), 0o600); err != nil {
+				panic(err)
+			}
 		}
+		defer func() {
+			if w.buildErr == "" {
+				w.userFile = p
+			}
+		}()
 		if mode == "file" {
 			raw["basicAuth"] = map[string]interface{}{"mode": "FILE", "userFile": p}
 		} else {
 			raw["basicAuth"] = map[string]interface{}{"userFile": p} // `mode` forgotten
 		}
 	case "etcd":
-		kvs := c06Kvs(lines)
-		cls := clustertest.NewMockedCluster()
-		syncer := clustertest.NewMockedSyncer()
-		cls.MockedSyncer = func(time.Duration) (cluster.Syncer, error) { return syncer, nil }
-		ch := make(chan map[string]string)
-		w.syncCh = ch
-		syncer.MockedSyncPrefix = func(string) (<-chan map[string]string, error) { return ch, nil }
-		cls.MockedGetPrefix = func(string) (map[string]string, error) { return kvs, nil }
-		var mm sync.Map
-		super = supervisor.NewMock(nil, cls, mm, mm, nil, nil, false, nil, nil)
-		raw["basicAuth"] = map[string]interface{}{"mode": "ETCD", "etcdPrefix": "credentials/"}
+		if w.super == nil {
+			cls := clustertest.NewMockedCluster()
+			syncer := clustertest.NewMockedSyncer()
+			cls.MockedSyncer = func(time.Duration) (cluster.Syncer, error) { return syncer, nil }
+			// every generation's watcher gets its own channel; snapshots go to the running generation
+			syncer.MockedSyncPrefix = func(string) (<-chan map[string]string, error) {
+				ch := make(chan map[string]string)
+				w.syncCh = ch
+				return ch, nil
+			}
+			cls.MockedGetPrefix = func(p string) (map[string]string, error) {
+				return w.stores[strings.TrimPrefix(p, "/custom-data/")], nil
+			}
+			var mm sync.Map
+			w.super = supervisor.NewMock(nil, cls, mm, mm, nil, nil, false, nil, nil)
+			w.stores = map[string]map[string]string{}
+		}
+		// a spec with other users names another prefix of the store; the same users: the same prefix
+		pfx := w.prefix
+		if pfx == "" || !w.sameUsers(users) {
+			w.builds++
+			pfx = fmt.Sprintf("credentials-%d/", w.builds)
+			ls := w.lines(users, false)
+			if len(ls) == 1 && r.Intn(2) == 0 { // none of our users: the store may just as well be empty
+				ls = nil
+			}
+			w.stores[pfx] = c06Kvs(ls)
+		}
+		defer func() {
+			if w.buildErr == "" {
+				w.prefix = pfx
+			}
+		}()
+		raw["basicAuth"] = map[string]interface{}{"mode": "ETCD", "etcdPrefix": pfx}
 	}
 
-	spec, err := filters.NewSpec(super, "", raw)
+	spec, err := filters.NewSpec(w.super, "", raw)
 	if err != nil {
 		w.buildErr = err.Error()
-		return w
+		return
 	}
-	w.v = &Validator{spec: spec.(*Spec)}
-	w.v.Init()
-	return w
+	nv := kind.CreateInstance(spec)
+	if w.v == nil {
+		nv.Init()
+	} else {
+		nv.Inherit(w.v)
+		w.closeFilter()
+		w.gen++
+	}
+	w.v = nv
+	w.cfg, w.mat = cfg, mat
+	if mode != "file" {
+		w.userFile = ""
+	}
+	if mode != "etcd" {
+		w.prefix = ""
+	} else if kvs := w.stores[raw["basicAuth"].(map[string]interface{})["etcdPrefix"].(string)]; len(kvs) > 0 {
+		// cluster.Syncer delivers what the store holds when a watch starts (syncer.run: pullCompareSend)
+		if err := w.deliver(kvs); err != nil {
+			w.buildErr = err.Error()
+		}
+	}
+	for _, k := range []string{"uPlain", "uColon"} {
+		w.users[k] = vx.Str(users[k])
+	}
+}
+
+func (w *c06World) sameUsers(users vx.M) bool {
+	return vx.Str(users["uPlain"]) == w.users["uPlain"] && vx.Str(users["uColon"]) == w.users["uColon"]
+}
+
+func (w *c06World) closeFilter() {
+	defer func() { recover() }()
+	w.v.Close()
 }
 
 // the cluster store's view of a list of "user:hash" lines (custom data entries as documented)
@@ -328,28 +451,24 @@ func c06Kvs(lines []string) map[string]string {
 // snapshot before it receives again, so when the SECOND send of the same snapshot has been taken
 // the first one has been applied.
 func (w *c06World) sync(table vx.M, r *rand.Rand) error {
-	var lines []string
-	for _, u := range []struct {
-		key string
-		u   c06User
-	}{{"uPlain", w.uPlain}, {"uColon", w.uColon}} {
-		switch st := vx.Str(table[u.key]); st {
-		case "v1":
-			lines = append(lines, u.u.line[0])
-		case "v2":
-			lines = append(lines, u.u.line[1])
-		}
-		w.users[u.key] = vx.Str(table[u.key])
+	lines := w.lines(table, true)
+	for _, k := range []string{"uPlain", "uColon"} {
+		w.users[k] = vx.Str(table[k])
 	}
 	if len(lines) > 0 && r.Intn(2) == 0 { // all users deleted: the snapshot is the empty map
 		lines = append(lines, w.otherLine)
 	}
 	r.Shuffle(len(lines), func(i, j int) { lines[i], lines[j] = lines[j], lines[i] })
-	kvs := c06Kvs(lines)
+	w.stores[w.prefix] = c06Kvs(lines)
+	return w.deliver(w.stores[w.prefix])
+}
+
+// deliver sends a snapshot to the running generation's watcher, twice (see sync)
+func (w *c06World) deliver(kvs map[string]string) error {
 	for i := 0; i < 2; i++ {
 		select {
 		case w.syncCh <- kvs:
-		case <-time.After(20 * time.Second):
+		case <-time.After(30 * time.Second):
 			return fmt.Errorf("the validator's etcd watcher does not take snapshots")
 		}
 	}
@@ -358,10 +477,7 @@ func (w *c06World) sync(table vx.M, r *rand.Rand) error {
 
 func (w *c06World) close() {
 	if w.v != nil {
-		func() {
-			defer func() { recover() }()
-			w.v.Close()
-		}()
+		w.closeFilter()
 	}
 	if w.dir != "" {
 		os.RemoveAll(w.dir)
@@ -747,8 +863,10 @@ func c06Family(req vx.M) interface{} {
 
 // concretise builds the wire-level request for an abstract request record
 func c06Concretise(w *c06World, areq vx.M, rep int) *c06Case {
-	rb := vx.Rand(c06Hash("base", w.cfg, c06Family(areq), rep)) // base data: shared by all single mutants
-	rm := vx.Rand(c06Hash("mut", w.cfg, areq, rep))             // choice of the mutation variant
+	// (seeded by the FIRST generation's configuration: the same abstract request presented again after a hot update is
+	// the same concrete request - the same token string, the same Basic credentials - signed anew where time matters)
+	rb := vx.Rand(c06Hash("base", w.cfg0, c06Family(areq), rep)) // base data: shared by all single mutants
+	rm := vx.Rand(c06Hash("mut", w.cfg0, areq, rep))             // choice of the mutation variant
 	sg := c06M(areq["sg"])
 	hasBody := -1
 	if vx.Bool(sg["p"]) {
@@ -770,7 +888,7 @@ func c06Concretise(w *c06World, areq vx.M, rep int) *c06Case {
 	}
 
 	// ruled header
-	rh := vx.Rand(c06Hash("hv", w.cfg, c06Family(areq), rep))
+	rh := vx.Rand(c06Hash("hv", w.cfg0, c06Family(areq), rep))
 	for _, cl := range vx.List(areq["hv"]) {
 		var v string
 		switch cl.(string) {
@@ -871,13 +989,25 @@ func c06Concretise(w *c06World, areq vx.M, rep int) *c06Case {
 		var id, secret string
 		switch vx.Str(sg["key"]) {
 		case "id0":
-			id, secret = w.ids[0], w.secrets[0]
+			id, secret = w.ids[0], w.secrets[0][0]
 		case "id1":
-			id, secret = w.ids[1], w.secrets[1]
+			id, secret = w.ids[1], w.secrets[1][0]
+		case "id0v2": // the second secret of the id: configured only after a hot update re-keyed it
+			id, secret = w.ids[0], w.secrets[0][1]
+		case "id1v2":
+			id, secret = w.ids[1], w.secrets[1][1]
 		case "id0wrongsecret":
 			id, secret = w.ids[0], w.wrongSec
+		case "noid": // the empty access key id, signed with the empty secret: anybody can make this one
+			id, secret = "", ""
+		case "noidsecret": // the empty access key id with a configured secret
+			id, secret = "", w.secrets[rb.Intn(2)][0]
+		case "id0nosecret": // a configured id, signed with the empty secret
+			id, secret = w.ids[0], ""
+		case "unknown":
+			id, secret = w.unknownID, w.secrets[rb.Intn(2)][0]
 		default:
-			id, secret = w.unknownID, w.secrets[rb.Intn(2)]
+			panic("c06: unknown access key class " + vx.Str(sg["key"]))
 		}
 		carrier := vx.Str(sg["carrier"])
 		now := time.Now()
@@ -1014,26 +1144,38 @@ func TestVerifC06Replay(t *testing.T) {
 		cfg := c06M(beh[0]["cfg"])
 		for rep := 0; rep < reps; rep++ {
 			w := c06NewWorld(cfg, rep)
-			if w.v == nil {
+			if w.v == nil || w.buildErr != "" {
 				out.Raw(vx.M{"k": "builderr", "cfg": cfg, "err": w.buildErr})
 				w.close()
 				continue
 			}
 			w.now = vx.Int(beh[0]["now"])
 			emit(vx.M{"ev": "reset", "cfg": cfg, "now": w.now})
+		steps:
 			for si, st := range beh[1:] {
 				switch vx.Str(st["a"]) {
 				case "adv":
 					w.now += vx.Int(st["d"])
 					emit(vx.M{"ev": "adv", "d": vx.Int(st["d"])})
 				case "sync":
-					if w.syncCh == nil {
-						t.Fatalf("sync step in a behaviour of a configuration without etcd: %v", cfg)
+					if w.syncCh == nil || vx.Str(w.cfg["basic"]) != "etcd" {
+						t.Fatalf("sync step in a behaviour of a configuration without etcd: %v", w.cfg)
 					}
 					if err := w.sync(c06M(st["users"]), vx.Rand(c06Hash("sync", cfg, rep, si))); err != nil {
 						t.Fatalf("c06: %v", err)
 					}
 					emit(vx.M{"ev": "sync", "users": st["users"]})
+				case "reconf": // hot update: new spec, new generation built with Inherit from the running one
+					ncfg, nmat, nusers := c06M(st["cfg"]), c06M(st["mat"]), c06M(st["users"])
+					w.buildErr = ""
+					w.build(ncfg, nmat, nusers, vx.Rand(c06Hash("reconf", cfg, rep, si)))
+					if w.buildErr != "" {
+						out.Raw(vx.M{"k": "builderr", "cfg": ncfg, "err": w.buildErr, "gen": w.gen + 1})
+						break steps
+					}
+					hb, _ := json.Marshal(vx.M{"cfg": ncfg, "mat": nmat, "users": nusers, "afterStep": si})
+					w.history = append(w.history, string(hb))
+					emit(vx.M{"ev": "reconf", "cfg": ncfg, "mat": nmat, "users": nusers})
 				case "present":
 					areq := c06M(st["req"])
 					c := c06Concretise(w, areq, rep)
@@ -1042,7 +1184,8 @@ func TestVerifC06Replay(t *testing.T) {
 					res := vx.M{"acc": obs.acc, "status": obs.status, "intact": obs.intact}
 					ln := emit(vx.M{"ev": "present", "req": areq, "res": res})
 					sum := sha256.Sum256(c.body)
-					out.Raw(vx.M{"k": "case", "line": ln, "beh": bi, "step": si + 1, "rep": rep, "cfg": cfg, "now": w.now, "users": map[string]string{"uPlain": w.users["uPlain"], "uColon": w.users["uColon"]},
+					out.Raw(vx.M{"k": "case", "line": ln, "beh": bi, "step": si + 1, "rep": rep, "cfg": w.cfg, "mat": w.mat, "gen": w.gen,
+						"history": w.history, "now": w.now, "users": map[string]string{"uPlain": w.users["uPlain"], "uColon": w.users["uColon"]},
 						"req": areq, "exp": st["exp"], "v": st["v"], "impl": st["impl"], "res": res, "tag": obs.tag, "panic": obs.panicV,
 						"result": obs.result, "wire": wire, "bodyLen": len(c.body), "bodySha": hex.EncodeToString(sum[:6]),
 						"chunked": chunked && len(c.body) > 0, "mutations": c.note})
